@@ -179,6 +179,29 @@ def check(R):
         R.expect('P3', rec.fn, 'the recording closure calls record_pake_failure unconditionally',
                  not prims.precedes(rec, call_bbs(rec, PASE + '::record_pake_failure'), rec.ret_blocks()),
                  'record_pake_failure on every path', 'a path through the closure skips record_pake_failure')
+        # once Pake2 is out the peer can test one passcode guess offline: from there on the handshake ends uncounted (a constant Ok(true))
+        # only when its establishment slot was lost to another handshake; every other ending is the verdict of Pake3 or an error
+        hi = async_body(R, PR + '::handle_inner')
+        p1 = hi.calls(PR + '::handle_pasepake1')
+        R.floor('handle_pasepake1 in handle_inner', len(p1), 1)
+        tr1 = prims.track_result(F, hi, p1[0], inner=1)
+        R.floor('Ok(true) edge of handle_pasepake1', len(tr1.success), 1)
+        slot_lost = set()
+        for t in hi.calls(PR + '::update_session_timeout'):
+            slot_lost |= prims.track_result(F, hi, t, inner=1).failure
+        const_true = sorted({i for i, j, st in hi.stmts() if st[1].get('op') == 'agg' and st[1].get('var') == 'Ok' and str(st[1].get('adt', '')).endswith('result::Result')
+                             and st[1]['a'] and st[1]['a'][0].get('k', {}).get('v') == 1 and st[1]['a'][0].get('k', {}).get('ty') == 'bool'})
+        var_ok = [(i, st) for i, j, st in hi.stmts() if st[1].get('op') == 'agg' and st[1].get('var') == 'Ok' and str(st[1].get('adt', '')).endswith('result::Result')
+                  and st[1]['a'] and op_place(st[1]['a'][0]) and hi.locals[op_place(st[1]['a'][0])[0]][0] == 'bool']
+        R.floor('constant Ok(true) results of handle_inner', len(const_true), 3)
+        for (frm, to) in sorted(tr1.success):
+            R.cut_from('P2', hi, to, 'end the handshake uncounted (constant Ok(true)) after Pake2 was disclosed', const_true,
+                       'the establishment slot was lost to another handshake (update_session_timeout == false)', slot_lost)
+        R.floor('Ok(<verdict>) result of handle_inner', len(var_ok), 1)
+        for i, st in var_ok:
+            sc_ = src_calls(prims.sources(hi, st[1]['a'][0]))
+            R.expect('P10', hi.fn, 'the counted / uncounted verdict after Pake3 is handle_pasepake3\'s', PR + '::handle_pasepake3' in sc_,
+                     'Ok(success) <= handle_pasepake3', f'verdict derives from {sorted(sc_)[:6]}', hi.where(i))
         # counter confinement and the constant
         R.writers_confined('P1', 'pake_failures:sc::pase::CommWindow', {PASE + '::record_pake_failure', 'sc::pase::CommWindow::init',
                            'sc::pase::CommWindow::init_with_pw', 'sc::pase::CommWindow::new', 'sc::pase::CommWindow::new_with_pw'})
@@ -249,6 +272,41 @@ def check(R):
         emits = [t.bb for t in ms.calls('sc::pase::CommWindow::mdns_service')]
         R.floor('CommWindow::mdns_service in Matter::mdns_services', len(emits), 1)
         R.cut('P2', ms, 'emit the commissionable mDNS record', emits, 'Pase::comm_window() is Some', lambda: R.call_guard(ms, PASE + '::comm_window'))
+        # ... "while a window is open": what decides the emission is the window and nothing else - no other part of the node state
+        # (fail-safe, fabrics, ..) and no captured flag flows into a branch that separates the emission from its omission
+        def state_seeds(body):
+            out = {}
+            def scan(dst, pl):
+                for x in pl[1:]:
+                    if isinstance(x, str) and x.startswith('.') and x.endswith(':MatterState') and x != '.pase:MatterState':
+                        out.setdefault(dst, x[1:])
+                    if isinstance(x, str) and x.endswith(':^') and len(body.locals[dst]) and body.locals[dst][0] in ('bool', 'u8', 'u16', 'u32', 'u64', 'usize'):
+                        out.setdefault(dst, 'captured ' + x[1:-2])
+            for i, j, st in body.stmts():
+                if len(st[0]) != 1:
+                    continue
+                if 'pl' in st[1]:
+                    scan(st[0][0], st[1]['pl'])
+                for a in st[1].get('a', ()):
+                    if op_place(a):
+                        scan(st[0][0], op_place(a))
+            for t in body.calls():
+                for a in t.d['a']:
+                    if op_place(a) and t.d.get('d'):
+                        scan(t.d['d'][0], op_place(a))
+            return out
+        seeds = state_seeds(ms)
+        deciding = []
+        if seeds:
+            tainted, sw, _, _ = prims.forward_taint(ms, set(seeds))
+            for bb in sw:
+                succs = ms.succ[bb]
+                hit = [bool(set(emits) & prims.reach(ms, (s_,))) for s_ in succs]
+                if any(hit) and not all(hit):
+                    deciding.append(ms.where(bb))
+        R.expect('P9', ms.fn, 'whether the commissionable record is emitted depends on the commissioning window alone', not deciding,
+                 f'no branch fed by other node state ({sorted(set(seeds.values())) or "none read"}) separates emission from omission',
+                 f'a branch at {deciding} that is fed by {sorted(set(seeds.values()))} decides whether an open window is advertised', deciding[0] if deciding else ms.where(emits[0]))
         reach = prims.reachable_fns(F, ['im::InteractionModel::check_timeouts'], depth=3)
         R.expect('P4', 'im::InteractionModel::check_timeouts', 'periodic timeout sweep evaluates the window expiry',
                  PASE + '::check_comm_window_timeout' in reach, 'check_timeouts -> check_comm_window_timeout', 'check_comm_window_timeout not reachable from check_timeouts')
